@@ -6,6 +6,10 @@
 // SendDirect), with the built-in defaults or with settings applied through the real
 // ApplyConfig (repository's mock configuration), and judges what a recording TcpClient
 // received. Time is virtual: the wait-time trigger compares record timestamps.
+// The client either consumes the pack at once or retains it, and — independently, in every
+// section — answers nil or, following a per-scenario script, an error (k-th hand-over, every
+// n-th, the first k, from the k-th on, a random pattern, all). A pack passed to the client is
+// emitted whatever the client answers: the oracles are the same with and without errors.
 package main
 
 import (
@@ -1166,8 +1170,16 @@ func main() {
 		if len(usableBadKinds) > 0 {
 			c.Floor("unencodable_records_handed_over", 2, c.Counter("unencodable_records_handed_over"))
 		}
+		c.Floor("handovers_answered_with_error", 4, c.Counter("handovers_answered_with_error"))
+		c.Floor("handovers_answered_with_error_followed_by_further_packs", 3, c.Counter("handovers_answered_with_error_followed_by_further_packs"))
+		c.Floor("packs_right_after_a_failed_handover_fully_judged", 3, c.Counter("packs_right_after_a_failed_handover_fully_judged"))
+		c.Floor("handovers_answered_with_error_followed_by_further_packs/queue", 2, c.Counter("handovers_answered_with_error_followed_by_further_packs/queue"))
 		if !race {
 			c.Floor("retained_packs_compared", 20, c.Counter("retained_packs_compared"))
+			c.Floor("handovers_answered_with_error_followed_by_further_packs/append", 15, c.Counter("handovers_answered_with_error_followed_by_further_packs/append"))
+			c.Floor("handovers_answered_with_error_followed_by_further_packs/senddirect", 8, c.Counter("handovers_answered_with_error_followed_by_further_packs/senddirect"))
+			c.Floor("handovers_answered_with_error_pack_retained", 10, c.Counter("handovers_answered_with_error_pack_retained"))
+			c.Floor("handovers_answered_with_error_pack_consumed", 10, c.Counter("handovers_answered_with_error_pack_consumed"))
 			c.Floor("defaults_settings_read", 20, c.Counter("defaults_settings_read"))
 		}
 	}
